@@ -46,6 +46,11 @@ SPECS += [
     ("str", "t ~ center(a) + b | {center(a) * b} + z", {"z"}, []),
     ("kw", {"first": "scale(b) + t", "second": ("I(scale(b) + a)", "a:{scale(b) * 2}")}, set(), []),
 ]
+SPECS += [
+    # a part that materializes to ZERO columns still holds the same rows as its siblings
+    ("str", "t ~ z | 0", {"z"}, []),
+    ("kw", {"first": "t + w", "second": ("0", "a + A"), "third": "a - a - 1"}, {"w", "A"}, []),
+]
 SPEC_OPTIONS = {22: {"cluster_by": "numerical_factors"}, 23: {"cluster_by": "numerical_factors"}}
 
 
